@@ -73,8 +73,17 @@ type Chain struct {
 // NActors of every chain.
 const NActors = 4
 
-func newChain(merge func(cdc codec.Codec, state simapp.GenesisState) simapp.GenesisState) *Chain {
+// genesisTweaks are applied to the default genesis of every chain (registered by the module files).
+var genesisTweaks []func(cdc codec.Codec, state simapp.GenesisState) simapp.GenesisState
+
+func newChain() *Chain {
 	c := &Chain{}
+	merge := func(cdc codec.Codec, state simapp.GenesisState) simapp.GenesisState {
+		for _, t := range genesisTweaks {
+			state = t(cdc, state)
+		}
+		return state
+	}
 	c.Env = lib.NewEnv(lib.EnvOpts{
 		NActors:  NActors,
 		Balances: initialBalances(),
@@ -201,7 +210,7 @@ func initModule(c *Chain, name string, raw json.RawMessage) (kind string, msg st
 // freshB builds chain B: a new app whose bank and auth state are replaced by A's exported ones (module
 // accounts, escrow balances and supplies are then those the exported module states refer to).
 func freshB(a *Chain, height int64) *Chain {
-	b := newChain(nil)
+	b := newChain()
 	b.SetHeader(tmproto.Header{Height: height, Time: a.Time, ChainID: "verif"})
 	for _, name := range []string{"auth", "bank"} {
 		raw, err := exportModule(a, name)
@@ -356,7 +365,7 @@ func hash(s string) uint64 {
 
 func exec(h History) lib.Case {
 	x := &X{Stats: map[string]int{}, Scratch: map[string]interface{}{}}
-	x.A = newChain(nil)
+	x.A = newChain()
 	c := lib.Case{}
 	for _, st := range h.Steps {
 		if st.Op == "block" {
